@@ -5,6 +5,9 @@ package checks
 
 import (
 	"fmt"
+	"github.com/DrmagicE/gmqtt"
+	"strings"
+	"sync"
 	"testing"
 	"time"
 
@@ -245,6 +248,27 @@ func runC08(s c08Scen, c *ev.Case) *ev.Violation {
 		if l.DiscExpiryS > 0 {
 			E = time.Duration(l.DiscExpiryS) * time.Second
 		}
+		// "Too late" is decided by ORDER, not by a latency bound: one second after the latest moment the will may be
+		// published the harness publishes a marker to the watcher. Will and marker pass the same serialised delivery
+		// and the watcher's one FIFO queue, so a will that arrives behind the marker was published after it - however
+		// slow the machine is. (Markers published later than planned only weaken the check.)
+		var markers []string
+		var markMu sync.Mutex
+		mark := func(tag string, at time.Time) {
+			time.AfterFunc(time.Until(at), func() {
+				markMu.Lock()
+				markers = append(markers, tag)
+				markMu.Unlock()
+				b.Srv.Publisher().Publish(&gmqtt.Message{Topic: fixture.SentinelTopic(w.ID), Payload: []byte(tag)})
+			})
+		}
+		if !suppress {
+			w0 := end.plus(D)
+			if E < D {
+				w0 = end.plus(E)
+			}
+			mark("deadline0-"+id, w0.hi.Add(time.Second))
+		}
 		// ---- later action ----
 		var reattach *ival
 		switch l.After {
@@ -274,6 +298,9 @@ func runC08(s c08Scen, c *ev.Case) *ev.Violation {
 			}
 		}
 
+		if !suppress && sessEnd != nil {
+			mark("deadline1-"+id, sessEnd.hi.Add(time.Second))
+		}
 		// ---- expectation ----
 		expectNone := suppress
 		var window ival
@@ -353,9 +380,25 @@ func runC08(s c08Scen, c *ev.Case) *ev.Violation {
 		if at.Before(window.lo.Add(-5 * time.Millisecond)) {
 			return fail(ev.Violf("C08.too-early", "will arrived %v after the connection ended, not before %v was allowed (delay %v, expiry %v)", at.Sub(end.lo), window.lo.Sub(end.lo), D, E))
 		}
-		if at.After(window.hi.Add(time.Second)) {
-			return fail(ev.Violf("C08.too-late", "will arrived %v after the connection ended, expected by %v (+1 s tolerance) (delay %v, expiry %v)", at.Sub(end.lo), window.hi.Sub(end.lo), D, E).
+		// position of the will among the packets the watcher received, and of the deadline markers
+		willIdx, firstMarker, firstMarkerTag := -1, -1, ""
+		for k, r := range w.All() {
+			if r.P.Type != mw.PUBLISH {
+				continue
+			}
+			if r == got[0] {
+				willIdx = k
+			}
+			if isSentinel(r.P) && strings.HasPrefix(string(r.P.Payload), "deadline") && strings.HasSuffix(string(r.P.Payload), "-"+id) && firstMarker < 0 {
+				firstMarker, firstMarkerTag = k, string(r.P.Payload)
+			}
+		}
+		if firstMarker >= 0 && willIdx > firstMarker {
+			return fail(ev.Violf("C08.too-late", "will arrived %v after the connection ended, behind the marker %s which the harness published one second after the latest moment allowed (%v after the end; delay %v, expiry %v)", at.Sub(end.lo), firstMarkerTag, window.hi.Sub(end.lo), D, E).
 				With("session_ended_explicitly", sessEnd != nil))
+		}
+		if at.After(window.hi.Add(time.Second)) {
+			o.labels = append(o.labels, "will_in_time_but_delivered_late") // slow machine: published before the marker, seen late
 		}
 		// content
 		p := got[0].P
